@@ -1,7 +1,7 @@
 (* Proofs/MonitorProofs.v — lemmas for C20 (Model/Monitor.v, gen/Routes_gen.v). *)
 From Coq Require Import String List Bool Arith ZArith Lia Permutation.
 Import ListNotations.
-From PV Require Import Model.Monitor gen.Routes_gen.
+From PV Require Import Model.Monitor gen.Routes_gen gen.ReadImpl_gen.
 
 (* ------------------------------------------------------------------ read-only API methods *)
 Lemma read_prim_state : forall s c, read_only (c_api c) = true -> fst (prim s c) = s.
@@ -239,4 +239,34 @@ Proof.
   destruct (qv_restoring gen_qv).
   - split; [exact gen_get_routes_read_only | exact D].
   - intros [_ H]; exact (D H).
+Qed.
+
+(* ------------------------------------------------------------------ implementations of the read methods *)
+Lemma gen_read_impl_ok : impls_ok gen_read_impl = true.
+Proof. vm_compute. reflexivity. Qed.
+
+Lemma gen_impl_coverage : impl_coverage gen_routes gen_read_impl = true.
+Proof. vm_compute. reflexivity. Qed.
+
+Lemma impls_ok_effects : forall l i e, impls_ok l = true -> In i l -> read_only (i_api i) = true ->
+  In e (i_effects i) -> effect_observes e = true.
+Proof.
+  intros l i e H Hi Hr He; unfold impls_ok in H; rewrite forallb_forall in H; specialize (H i Hi).
+  unfold impl_ok in H; rewrite Hr in H; cbn [negb orb] in H.
+  rewrite forallb_forall in H; exact (H e He).
+Qed.
+
+Lemma effect_observes_inv : forall e, effect_observes e = true -> exists a, e = ECall a /\ read_only a = true.
+Proof. intros [a| |] H; cbn in H; try discriminate; exists a; split; [reflexivity | exact H]. Qed.
+
+(* what a GET route (other than the queue view) can reach is implemented, in both backends, by code whose only
+   effects are calls of read-only methods: no store / del / in-place operator on a stored container (not even
+   through a local alias), no SQL write, no call of a mutating method *)
+Lemma gen_get_routes_reach_observing_code : forall r a i e,
+  In r gen_routes -> r_qv r = false -> In a (r_reach r) -> In i gen_read_impl -> i_api i = a ->
+  In e (i_effects i) -> exists b, e = ECall b /\ read_only b = true.
+Proof.
+  intros r a i e Hr Hq Ha Hi Hia He; apply effect_observes_inv.
+  apply (impls_ok_effects _ i e gen_read_impl_ok Hi); [|exact He].
+  rewrite Hia; exact (forallb_In_read _ _ (routes_ok_plain _ _ gen_routes_ok Hr Hq) Ha).
 Qed.
